@@ -9,6 +9,7 @@ from h5 import gen, lean, wire
 
 ID = "C09"
 PROPS_MODULE = "H5.Props.C09"
+EXTRA_PROPS_MODULES = ["H5.Props.C09Tables"]
 GEN_MODULES = ["Sanitizer", "Constants"]
 CORRESPONDENCE_OPS = ["san", "san:css", "san:uri", "san:scheme", "san:lower", "san:split", "re:*", "spec:browserScheme"]
 SOURCES = ["html5lib/filters/sanitizer.py", "html5lib/constants.py", "html5lib/filters/base.py"]
@@ -43,9 +44,26 @@ def S():
     return sanitizer
 
 
+# Which attributes are URI-valued / may carry url() references / are local-href-only is a fact about browsers, not about
+# the library's tables: the oracle for the DEFAULT configuration uses at least the pinned sets below (the tables of the
+# pinned commit), so that an entry silently dropped or mis-keyed in the library's own table is a failure of the property
+# and not a change of the oracle (round-6 seed C09-6: (xml, base) re-keyed to (xlink, base)).
+URI_VALUED_PINNED = frozenset([(None, n) for n in ("action", "background", "cite", "datasrc", "dynsrc", "href", "longdesc", "lowsrc",
+                                                    "ping", "poster", "src")] + [(gen.XLINK_NS, "href"), (gen.XML_NS, "base")])
+SVG_REF_PINNED = frozenset((None, n) for n in ("clip-path", "color-profile", "cursor", "fill", "filter", "marker", "marker-end",
+                                               "marker-mid", "marker-start", "mask", "stroke"))
+SVG_LOCAL_HREF_PINNED = frozenset((None, n) for n in ("altGlyph", "animate", "animateColor", "animateMotion", "animateTransform",
+                                                      "cursor", "feImage", "filter", "linearGradient", "pattern", "radialGradient",
+                                                      "set", "textpath", "tref", "use"))
+
+
 def defaults():
     m = S()
-    return {n: getattr(m, n) for n in LIST_NAMES}
+    d = {n: getattr(m, n) for n in LIST_NAMES}
+    d["attr_val_is_uri"] = frozenset(d["attr_val_is_uri"]) | URI_VALUED_PINNED
+    d["svg_attr_val_allows_ref"] = frozenset(d["svg_attr_val_allows_ref"]) | SVG_REF_PINNED
+    d["svg_allow_local_href"] = frozenset(d["svg_allow_local_href"]) | SVG_LOCAL_HREF_PINNED
+    return d
 
 
 # ------------------------------------------------------------------------------------------------------------------
